@@ -10,14 +10,15 @@ from .lib.mir import AnchorLost
 CONFIGS_QUICK = ["A"]
 CONFIGS_THOROUGH = ["A", "R", "NOAPI"]
 TECHNIQUE = "call-graph reachability from the request-time file handler to file-system APIs (must be empty) and who-may-call of the file reads; registration shape of Dir::apply; mime literal table"
-LEVEL_TEXT = ('Decides clauses C19-a/b/c: from the request-time closure of the static file handler no function of std::fs, std::io, std::path or std::env is '
-              'reachable, and every file read sits in Dir::new / StaticFileHandler::new, reachable only from route registration -- so a request can only select among'
-              ' routes registered from the start-up walk (no `..`, encoded or doubled separator can name a file outside the snapshot, later disk changes are not '
-              'served); every registration made by `Dir` goes through HandlerSet::new(route).GET(handler) and no other method, the route being the mount route joined'
-              ' with `/` and the relative path segments; index.html is registered at its directory path always and at its own path unless `html` is omitted, and at '
-              'most one configured extension is stripped, by a match anchored at the end of the file name (a suffix, not the text after the first dot); the handler '
-              'answers with the file bytes through with_payload (Content-Type from the extension table, Content-Length from the same bytes); the extension table maps'
-              ' to well-formed, distinct-keyed media types. Decides these clauses, not the exact served set for all directory trees.')
+LEVEL_TEXT = ('Decides clauses C19-a/b/c: from the request-time closure of the static file handler no function of std::fs, std::io, std::path or std::env is reachabl'
+              'e, and every file read sits in Dir::new / StaticFileHandler::new, reachable only from route registration -- so a request can only select among routes '
+              'registered from the start-up walk (no `..`, encoded or doubled separator can name a file outside the snapshot, later disk changes are not served); eve'
+              'ry registration made by `Dir` goes through HandlerSet::new(route).GET(handler) and no other method, the route being the mount route joined with `/` an'
+              'd the relative path segments; index.html is registered at its directory path always and at its own path unless `html` is omitted, and at most one conf'
+              'igured extension is stripped, by a match anchored at the end of the file name (a suffix, not the text after the first dot); the handler answers with t'
+              'he file bytes through with_payload (Content-Type from the extension table, Content-Length from the same bytes); the extension table maps to well-forme'
+              'd, distinct-keyed media types. C19-d: the buffer StaticFileHandler::new stores is handed out mutably only to the read that fills it: nothing modifies '
+              'the snapshot between the read and the store. Decides these clauses, not the exact served set for all directory trees.')
 
 FS_API = r"^std::(fs|io|path|env|os)::|^<std::(fs|io|path)::|^std::sys::"
 
@@ -30,6 +31,7 @@ def run(ck, progs):
         ck.guard("C19-a REACH no-fs-at-request-time", lambda: c19a(ck, prog))
         ck.guard("C19-b WHO registration", lambda: c19b(ck, prog))
         ck.guard("C19-c PAIR payload", lambda: c19c(ck, prog))
+        ck.guard("C19-d WHO snapshot is the file's bytes", lambda: c19d(ck, prog))
     ck.config = None
 
 
@@ -290,3 +292,67 @@ def c19c(ck, prog):
         g = f.calls_to(r"mime::get_by_extension$")
         ok = ok and len(g) == 1 and "rsplit_once" in decision.describe_deep(f, g[0].args[0], 6)
         ck.ob(R, "mime:from-last-extension", ok, f.loc(None), "" if ok else "the media type is not looked up from the text after the last `.` of the file name", how="get_by_extension(filename.rsplit_once('.').1)")
+
+
+READ_FILL = r"(io::Read|Read)::(read_exact|read_to_end|read)$|io::impls::.*::(read_exact|read_to_end|read)$|std::fs::File.*::(read_exact|read_to_end|read)$"
+
+
+def c19d(ck, prog):
+    """`the body is byte-identical to the file`: the buffer StaticFileHandler::new stores is the buffer the file was read
+    into, and between its creation and the store it is handed out mutably only to the read that fills it -- no drain /
+    truncate / retain / element store (BOM stripping, newline normalisation, trimming) on the snapshot."""
+    R = "C19-d WHO snapshot is the file's bytes"
+    nw = [f for f in prog.fns.values() if f.name == "new" and f.self_ty and "StaticFileHandler" in f.self_ty]
+    if not nw:
+        raise AnchorLost("StaticFileHandler::new not found")
+    f = nw[0]
+    arcs = [c for c in f.calls() if c.name in ("new", "from") and re.search(r"sync::Arc|boxed::Box|Cow", c.callee or "") and c.args and re.search(r"Vec<u8>|\[u8\]", " ".join(c.targs))]
+    if not arcs:
+        # fs::read result stored directly
+        arcs = [c for c in f.calls() if c.name in ("new",) and "Arc" in (c.callee or "")]
+    if len(arcs) != 1:
+        raise AnchorLost("the content snapshot is not stored by exactly one Arc::new in StaticFileHandler::new (%d)" % len(arcs))
+    root = f.origin(arcs[0].args[0])
+    if not root or root[-1][0] != "call":
+        raise AnchorLost("the stored content is not a locally created buffer")
+    rc = root[-1][1]
+    if re.search(r"fs::read$", rc.callee or ""):
+        ck.ob(R, "snapshot:unmodified", True, f.loc(rc.sp), how="content = fs::read(path), stored as is")
+        return
+
+    def is_mut_borrow(op, depth=3):
+        if op[0] not in ("c", "m") or depth <= 0:
+            return False
+        sd = f.single_def(op[1][0])
+        if not sd or sd[2] != "assign":
+            return False
+        r = sd[3]["r"]
+        if r[0] == "ref":
+            if r[1] == "mut":
+                return True
+            return False
+        if r[0] == "use":
+            return is_mut_borrow(r[1], depth - 1)
+        return False
+    bad, fills = [], 0
+    for c in f.calls():
+        for a in c.args:
+            o = f.origin(a)
+            if not (o and o[-1][0] == "call" and o[-1][1].bb == rc.bb and o[-1][1] is not None):
+                continue
+            if c.bb == rc.bb or not is_mut_borrow(a):
+                continue
+            if re.search(READ_FILL, c.callee or "") or re.search(READ_FILL, c.decl or ""):
+                fills += 1
+                continue
+            if c.name in ("deref_mut", "as_mut_slice", "as_mut", "index_mut", "borrow_mut"):
+                # the mutable view must itself only go to the read
+                users = [u for u in f.calls() if any((f.origin(x) or [(None,)])[-1][0] == "call" and (f.origin(x)[-1][1].bb == c.bb) for x in u.args)]
+                if users and all(re.search(READ_FILL, u.callee or "") or re.search(READ_FILL, u.decl or "") for u in users):
+                    fills += 1
+                    continue
+            bad.append((c, decision.describe_deep(f, a, 2)))
+    ok = not bad and fills >= 1
+    ck.ob(R, "snapshot:unmodified", ok, f.loc(bad[0][0].sp) if bad else f.loc(rc.sp),
+          "" if ok else ("the buffer read from the file is modified before it is stored: `%s` takes it mutably -- the served body is no longer byte-identical to the file" % bad[0][0].callee if bad
+                         else "no read into the stored buffer was found"), how="the buffer is handed out mutably only to the read that fills it (%d)" % fills)
